@@ -329,7 +329,14 @@ Section DV.
     - destruct (ty_int _ _ _ _ _ _ _ _ _ _ _ _ _ _ _ Ha) as (z & -> & Hf & _). cbn in Hf.
       eexists. split; [right; left; reflexivity|]. cbn [d_i64]. rewrite Hf. eexists. reflexivity.
     - destruct (ty_number _ _ _ _ _ _ _ _ _ _ _ _ _ _ _ Ha) as [(z & -> & Hf)|[r ->]].
-      + cbn in Hf. eexists. split; [right; left; reflexivity|]. cbn [d_i64]. rewrite Hf. eexists. reflexivity.
+      + cbn in Hf. destruct (in_range i64_min i64_max z) eqn:Ei.
+        * eexists. split; [right; left; reflexivity|]. cbn [d_i64]. rewrite Ei. eexists. reflexivity.
+        * eexists. split; [do 2 right; left; reflexivity|]. cbn [d_f64].
+          assert (Eu : in_range two63 (two64 - 1)%Z z = true).
+          { unfold in_range in *. apply Bool.andb_true_iff in Hf as [H1 H2]. apply Z.leb_le in H1, H2.
+            apply Bool.andb_true_iff. split; apply Z.leb_le; [|exact H2].
+            apply Bool.andb_false_iff in Ei as [Ei|Ei]; apply Z.leb_gt in Ei; unfold i64_min, i64_max, two63 in *; lia. }
+          rewrite Eu. eexists. reflexivity.
       + eexists. split; [do 2 right; left; reflexivity|eexists; reflexivity].
     - destruct (ty_string _ _ _ _ _ _ _ _ _ _ _ _ _ _ _ Ha) as [s ->]. eexists. split; [do 3 right; left; reflexivity|eexists; reflexivity].
   Qed.
